@@ -11,6 +11,7 @@ CONSTANTS
   TracerStyles = {"none"}
   Threadeds = {FALSE}
   Givens = {}
+  Blockeds = {"none"}
   Flags = {"lifo_inputs"}
 INVARIANT Restored
 INVARIANT Contained
